@@ -61,6 +61,13 @@ def _unused():
     pass
 
 
+SWEEP_LIMIT = [None]
+
+
+def _lim(n):
+    return n if SWEEP_LIMIT[0] is None else min(n, SWEEP_LIMIT[0])
+
+
 def plan_items(prop, tier, seed, ncases):
     kinds, q, th, _, _ = PLAN[prop]
     n = ncases if ncases else (q if tier == "quick" else th)
@@ -70,18 +77,18 @@ def plan_items(prop, tier, seed, ncases):
     nd = 0
     if any(k == "directed" for k, _ in kinds):
         # "every dispatch variant once" sweep: 60 single-thread worlds, in every tier
-        for q in range(60):
+        for q in range(_lim(60)):
             items.append(("directed", (base % 20000) * 100000 + 90000 + q, tier, prop))
         if prop == "C20":
             # "same operation from two threads" sweep over the whole catalogue (object + NumPy; Awkward too in thorough)
             from . import directed
 
-            for q in range(6 if tier == "thorough" else 2):
+            for q in range(_lim(6 if tier == "thorough" else 2)):
                 items.append(("directed", (base % 20000) * 100000 + 60000 + q, tier, prop))
-            for q in range(len(directed.register_templates())):
+            for q in range(_lim(len(directed.register_templates()))):
                 items.append(("directed", (base % 20000) * 100000 + 70000 + q, tier, prop))
             npair = len(directed.pair_templates())
-            for q in range(npair if tier == "thorough" else (npair * 2) // 3):
+            for q in range(_lim(npair if tier == "thorough" else (npair * 2) // 3)):
                 items.append(("directed", (base % 20000) * 100000 + 80000 + q, tier, prop))
     for i in range(n):
         kind = bag[i % len(bag)]
@@ -114,10 +121,12 @@ def main(argv=None):
     ap.add_argument("--jobs", type=int, default=int(os.environ.get("VERIF_JOBS", 0)) or (os.cpu_count() or 4))
     ap.add_argument("--replay", default=None)
     ap.add_argument("--no-shrink", action="store_true")
+    ap.add_argument("--sweeps", type=int, default=None, help="limit every enumerated sweep to its first N items (self-test only)")
     ap.add_argument("--no-evidence", action="store_true")
     ap.add_argument("--digest", action="store_true", help="print a digest of the whole event log (determinism self-test)")
     args = ap.parse_args(argv[1:] if argv else None)
 
+    SWEEP_LIMIT[0] = args.sweeps
     if args.prop == "selftest":
         from . import selftest
 
